@@ -4,6 +4,7 @@ import PrologVerif.Driver.C02
 import PrologVerif.Driver.C03
 import PrologVerif.Driver.C08
 import PrologVerif.Driver.C14
+import PrologVerif.Driver.C11
 open PrologVerif PrologVerif.Driver
 
 def handlers : List (String × Handler) :=
@@ -15,7 +16,10 @@ def handlers : List (String × Handler) :=
     ("c08.sort", C08.sortHandler),
     ("c14.table", C14.tableHandler),
     ("c14.race", C14.raceHandler),
-    ("c14.isolation", C14.isoHandler) ]
+    ("c14.isolation", C14.isoHandler),
+    ("c11.collect", C11.handler),
+    ("c11.collect.pinned", C11.handlerPinned),
+    ("c11.variant", C11.variantHandler) ]
 
 partial def loop (h : IO.FS.Stream) (out : IO.FS.Stream) (f : Handler) : IO Unit := do
   let line ← h.getLine
